@@ -479,7 +479,7 @@ impl WorldB {
                     check_expiry_of = Some(i);
                     match exp {
                         Some(Expiration::AtHeight(h)) => self.deadlines_h.push(h),
-                        Some(Expiration::AtTime(t)) => self.deadlines_t.push(t.seconds()),
+                        Some(Expiration::AtTime(t)) => self.deadlines_t.push(t.nanos()),
                         _ => {}
                     }
                 }
@@ -1133,8 +1133,11 @@ impl World for WorldB {
                 let spend_all = tx(&sub, json!({"execute":{"msgs":[cm(&CosmosMsg::Bank(BankMsg::Send { to_address: to.clone(), amount: coins.clone() }))]}}));
                 let regrant = tx(&adm, json!({"increase_allowance":{"spender": sub, "amount": {"denom": coins[0].denom, "amount": "7"}, "expires": null}}));
                 let jump = match e {
-                    Expiration::AtHeight(h) if h > b.height => Some(Step::Block { dh: h - b.height, dt: (h - b.height).saturating_mul(self.cfg.spb) }),
-                    Expiration::AtTime(t) if t.seconds() > b.time.seconds() => Some(Step::Block { dh: 1, dt: t.seconds() - b.time.seconds() }),
+                    Expiration::AtHeight(h) if h > b.height => Some(Step::Block { dh: h - b.height, dt: (h - b.height).saturating_mul(self.cfg.spb), dn: 0 }),
+                    Expiration::AtTime(t) if t.nanos() > b.time.nanos() => {
+                        let d = t.nanos() - b.time.nanos();
+                        Some(Step::Block { dh: 1, dt: d / crate::util::NS, dn: d % crate::util::NS })
+                    }
                     _ => None,
                 };
                 if let Some(j) = jump {
@@ -1168,12 +1171,9 @@ impl World for WorldB {
                 let jump = match e {
                     Expiration::AtHeight(h) => {
                         let target = (h + off).saturating_sub(1);
-                        if target > b.height { Some(Step::Block { dh: target - b.height, dt: (target - b.height).saturating_mul(self.cfg.spb) }) } else { None }
+                        if target > b.height { Some(Step::Block { dh: target - b.height, dt: (target - b.height).saturating_mul(self.cfg.spb), dn: 0 }) } else { None }
                     }
-                    Expiration::AtTime(t) => {
-                        let target = (t.seconds() + off).saturating_sub(1);
-                        if target > b.time.seconds() { Some(Step::Block { dh: 1, dt: target - b.time.seconds() }) } else { None }
-                    }
+                    Expiration::AtTime(t) => crate::util::jump_around(rng, b.time.nanos(), t.nanos()).map(|(dt, dn)| Step::Block { dh: 1, dt, dn }),
                     _ => None,
                 };
                 if let Some(j) = jump {
@@ -1317,18 +1317,17 @@ impl World for WorldB {
                     let target = (d + rng.below(3)).saturating_sub(1);
                     if target > b.height {
                         let dh = target - b.height;
-                        return Step::Block { dh, dt: dh.saturating_mul(self.cfg.spb) };
+                        return Step::Block { dh, dt: dh.saturating_mul(self.cfg.spb), dn: 0 };
                     }
                 }
                 if rng.chance(1, 3) && !self.deadlines_t.is_empty() {
                     let d = *rng.pick(&self.deadlines_t);
-                    let target = (d + rng.below(3)).saturating_sub(1);
-                    if target > b.time.seconds() {
-                        return Step::Block { dh: 1, dt: target - b.time.seconds() };
+                    if let Some((dt, dn)) = crate::util::jump_around(rng, b.time.nanos(), d) {
+                        return Step::Block { dh: 1, dt, dn };
                     }
                 }
                 let dh = *rng.pick(&[1u64, 1, 1, 2, 5, 1000]);
-                Step::Block { dh, dt: dh.saturating_mul(self.cfg.spb) }
+                Step::Block { dh, dt: dh.saturating_mul(self.cfg.spb), dn: crate::util::subsecond(rng) }
             }
         }
     }
@@ -1395,8 +1394,8 @@ impl World for WorldB {
                     self.check_state(!r.ok, out);
                 }
             }
-            Step::Block { dh, dt } => {
-                self.chain.advance(*dh, *dt);
+            Step::Block { dh, dt, dn } => {
+                self.chain.advance_ns(*dh, *dt, *dn);
                 self.meter.sim_blocks += dh;
                 self.meter.sim_seconds += dt;
                 self.check_state(false, out);
